@@ -32,6 +32,8 @@ def dec_num(s, d):
 
 
 def run(cmd, timeout=60, **kw):
+    # the binary's default keyring probes the desktop secret service: without this every invocation leaves a dbus-* entry in /tmp
+    kw.setdefault("env", dict(os.environ, DBUS_SESSION_BUS_ADDRESS="disabled:"))
     try:
         p = subprocess.run(cmd, stdout=subprocess.PIPE, stderr=subprocess.PIPE, text=True, timeout=timeout, **kw)
         return p.returncode, p.stdout, p.stderr
@@ -360,7 +362,8 @@ def node_session(binary, home, preload=None, blocks_timeout=60):
     log = open(os.path.join(home, "node.log"), "w")
     proc = subprocess.Popen([binary, "start", "--home", home, "--minimum-gas-prices", "0stake", "--rpc.laddr", node,
                              "--grpc.address", "127.0.0.1:%d" % grpc, "--api.enable=false", "--p2p.laddr", "tcp://127.0.0.1:%d" % p2p,
-                             "--grpc-web.enable=false"], stdout=log, stderr=subprocess.STDOUT)
+                             "--grpc-web.enable=false"], stdout=log, stderr=subprocess.STDOUT,
+                            env=dict(os.environ, DBUS_SESSION_BUS_ADDRESS="disabled:"))
     try:
         t0 = time.time()
         up = False
